@@ -28,7 +28,7 @@ def assert_address_in_memory(memory_width: int, address: int) -> None:
 def assert_word_in_range(memory_width: int, value: int, description: str) -> None:
     if value < 0 or value >= (1 << memory_width):
         raise FlipJumpAssemblerException(
-            f"the {description} ({value}) doesn't fit in a {memory_width}-bits memory word: "
+            f"the {description} ({hex(value)}) doesn't fit in a {memory_width}-bits memory word: "
             f"it must be in the range [0, {hex(1 << memory_width)})"
         )
 
